@@ -19,8 +19,9 @@ def canon_pattern(kind, atoms):
     return tuple(a)
 
 
-def dec_value(text):
-    """reader of a quoted value of the structured backend: "..." with \\ escaping, * and ? wildcards"""
+def dec_value(text, special=True):
+    """reader of a quoted value of the structured backend: "..." with \\ escaping, * and ? wildcards (special=False: the operand of a
+    startswith / endswith / contains operator, which takes its text literally - the backend leaves *_expression_allow_special off)"""
     if len(text) >= 2 and text[0] == '"' and text[-1] == '"':
         text = text[1:-1]
     out, i = [], 0
@@ -29,6 +30,9 @@ def dec_value(text):
         if c == "\\" and i + 1 < len(text):
             out.append(("L", text[i + 1]))
             i += 2
+        elif not special:
+            out.append(("L", c))
+            i += 1
         elif c == "*":
             out.append(WM)
             i += 1
@@ -53,7 +57,7 @@ def atom_of_query(tok):
     if cased:
         kind = kind[:-3]
     if kind in ("eq", "sw", "ew", "ct"):
-        return neg, ("str", field, cased, canon_pattern(kind, dec_value(val)))
+        return neg, ("str", field, cased, canon_pattern(kind, dec_value(val, special=(kind == "eq"))))
     if kind == "num":
         return neg, ("num", field, val)
     if kind == "re":
@@ -297,6 +301,8 @@ DETS = [
     ({"sa": {"f1": "a"}, "sb": {"f2": "b"}, "sc": {"f3": "c"}}, ["sa or sb and sc", "sa and sb or sc", "not sa or sb and not sc", "(sa or sb) and (sb or sc)", "not (sa and (sb or not sc))", "sa or (sb or sc)", "sa and (sb and sc)", "1 of s*", "all of s*"]),
     ({"n": {"f1|cidr": "10.1.2.0/23"}, "m": {"f2|cidr": "10.2.0.0/15"}, "k": ["kw"]}, ["not n", "n", "not n or m", "not (n or m)", "n and m", "not m and k", "k or not n"]),
     ({"q": {"f1|neq": "a"}, "r": {"f2|neq": ["b", "c"]}, "s": {"f3|contains|neq": "d*"}}, ["q", "not q", "q and r", "r", "not r or s", "s", "q or not s"]),
+    # single-character wildcards next to the wildcards that select the startswith / endswith / contains operators
+    ({"s": {"f1|startswith": "fo?o", "f2": "*a?b", "f3|contains": "x?y", "f4|cased|endswith": "p?q"}, "t": {"f5": "?ab*", "f6": "*ab?", "f7|cased": "*a?*"}}, ["s", "not s", "s and t", "not t", "s or not t"]),
 ]
 
 
